@@ -1,6 +1,14 @@
 import QcoVerif.Lemmas.C10Order
 import QcoVerif.Lemmas.C10Sched
 import QcoVerif.Generated.C10Worlds
+import QcoVerif.Lemmas.C10ParamWorlds0
+import QcoVerif.Lemmas.C10ParamWorlds1
+import QcoVerif.Lemmas.C10ParamWorlds2
+import QcoVerif.Lemmas.C10ParamWorlds3
+import QcoVerif.Lemmas.C10ParamRep
+import QcoVerif.Lemmas.C10ParamExample
+import QcoVerif.Lemmas.C10ParamBuild
+import QcoVerif.Lemmas.C10ParamLayerBuild
 /-
   C10 — library circuits never double-book a qubit channel.
 
@@ -295,5 +303,477 @@ example : (0:Int) ≤ 16 ∧ (0:Int) ≤ 8 ∧ ((8:Int) ≤ 16 → (16 - 8 : Int
 example : (Vars.mk 3 5 1 1).Nonneg ∧ regimeA.Valid ⟨3, 5, 1, 1⟩ ∧ regimeB.Valid ⟨3, 5, 1, 1⟩ :=
   have h : (Vars.mk 3 5 1 1).Nonneg := ⟨by decide, by decide, by decide, by decide⟩
   ⟨h, regimeA_valid h, regimeB_valid h⟩
+
+/-! ## Parametric layer theorems: WHY the library circuits are overlap-free, independent of the number of qubits
+
+  (Lemmas/C10Param.lean, C10ParamNested.lean, C10ParamCheck.lean, C10ParamFast.lean; namespace `Qco.C10Param`.)
+
+  The schedule checker above verifies heap by heap, pair by pair, what is one uniform argument: between two
+  synchronisation points (the start of a block, an all-qubit barrier, the last operation of the previous gate layer)
+  every qubit group carries ONE FOLLOWED_BY path of operations, and whatever comes next hangs below the last
+  operation of a path that ends LATEST (`Dominated`: the "deepest chain is a longest one").  The theorems of this
+  section state and prove that argument about the evaluator `evStart / evEnd / evDur / evLeadSpan` for an ARBITRARY
+  number of paths (qubits), path lengths, layers and nesting levels and ALL non-negative durations:
+
+    * `followed_by_path_schedule`      exact schedule of a path: start = end of the anchor + Σ durations before;
+    * `layer_last_ending_path`         one layer: every operation has ended when the dominating path ends;
+    * `layers_ordered`                 a block of layers: two distinct operations are ordered in time unless they sit
+                                       on two different paths of ONE layer;
+    * `layered_block_no_double_booking`  hence no double booking of a (flat) block of layers;
+    * `uniform_layer_dominated`, `refocusing_layer_dominated`, `refocusing_layer_closed`
+                                       the two kinds of layers of a QEC round satisfy the dominance hypothesis for every
+                                       number of qubits and all durations (no symbolic schedule, no regimes);
+    * `builder_hangs_below_last_match`, `builder_hangs_barrier_below_last_listed`
+                                       one step of `World.add`: where the builder puts an operation (why the closing
+                                       barrier hangs below the last-listed, deepest path);
+    * `builder_starts_new_path`, `builder_extends_path`, `builder_closes_layer`
+                                       program steps on a flat block (invariant `LInv`, any number of paths / lengths):
+                                       how the builder lays out a layer and where it hangs the closing operation;
+    * `nested_blocks_lead_zero`, `nested_block_covers`, `nested_block_follows`
+                                       blocks of layers nested in blocks of layers: lead 0, the interval of a block covers
+                                       everything below it, what a block is linked to precedes everything below it;
+    * `nested_layers_no_double_booking`  no double booking of nested blocks of layers (`NoDoubleBooking`).
+  `layeredOk` is the hypothesis bundle as a Boolean function of a heap (durations symbolic, as for `scheduleOk`;
+  the layers are read off the relation trees by `autoCert` — no certificate), sound by `layered_check_sound`,
+  `layered_check_all_durations`.
+
+  LIBRARY CLAUSE, extended (still BOUNDED to generated lists, but 10 × larger and including the unrolled variants):
+    * `library_layers_generated_partial`   all 26 heaps of Generated/C10Worlds are instances of the layer theorem
+      (layers read off the heap, no schedule table involved);
+    * `library_layers_checked_partial_0..3`, `library_no_double_booking_layered_partial`: 55 further heaps
+      (Lemmas/C10ParamWorlds0..3, written by tools/gen_c10_param_worlds.py: 16 984 objects, up to 822 objects per heap):
+      the chain family with 3, 5, …, 17 qubits (every distance that fits the device), cycle counts 0 … 5, with and without
+      refocusing, the Surface-17 layout sub-chains, full and simplified constructor, AS CONSTRUCTED AND AFTER
+      `apply_modifiers` (group links: `LayerOk.sync`, `DirectFb`);
+    * `library_no_double_booking_any_repetition_counts_partial`: the same heaps with arbitrary repetition counts (for
+      `cycles ≥ 4` the constructed heap depends on `cycles` only through one repetition count).
+  A sub-circuit may consist of SEVERAL sequences of layers (`BlockOk`: branches of the relation tree that have
+  children of their own, e.g. for `cycles = 0` the ancilla and the data measurement block below the initialisation
+  block); two nodes that lie on no common sequence must not conflict.
+  Not proved: that the constructor's heap is layered for EVERY distance (needs a parametric model of the constructor's
+  heap — the builder functions `add` / `copyObj` run on a symbolic distance; only generated DATA exists). -/
+
+open Qco.C10Param
+
+/-- `Reach` of the lemma files is the `FbChain` of this file. -/
+theorem reach_iff_fbChain {w : World} {a b : Nat} : Reach w a b ↔ FbChain w a b := by
+  constructor
+  · intro h
+    induction h with
+    | step h => exact .step h
+    | tail _ h ih => exact .tail ih h
+  · intro h
+    induction h with
+    | step h => exact .step h
+    | tail _ h ih => exact .tail ih h
+
+/-- **Exact schedule of a FOLLOWED_BY path** (any length): if `pre ++ [y]` hangs below `a` through links with the
+    single reference of the predecessor and the start of `y` is defined, then so are the end of `a` and the durations
+    of `pre`, and `start y = end a + Σ durations of pre`. -/
+theorem followed_by_path_schedule {w : World} (pre : List Nat) (a y : Nat) (h : FbPath w a (pre ++ [y]))
+    {sy : Int} (hsy : Start w y sy) : ∃ ea D, End w a ea ∧ PathDur w pre D ∧ sy = ea + D :=
+  fbPath_times pre a y h sy hsy
+
+/-- **Layer lemma** (any number of paths, any path lengths, any non-negative durations): in a layer whose paths
+    start together (`LayerCore`) every operation of every path has ended when the last operation of the dominating
+    path `main` ends — so whatever hangs below that operation starts after the whole layer. -/
+theorem layer_last_ending_path {w : World} {L : LayerData} (hL : LayerCore w L) {a : Nat}
+    {c : List Nat} (hc : c ∈ L.chains) {y : Nat} (hy : y ∈ c) {ey : Int} (hey : End w y ey)
+    {em : Int} (hem : End w (lastOf a L.main) em) : ey ≤ em :=
+  core_before_next hL hc hy hey hem
+
+/-- **Block of layers** (any number of layers): two distinct operations are ordered in time — one has ended when
+    the other starts — unless they sit on two different paths of the same layer. -/
+theorem layers_ordered {w : World} (hd : LeafDurNonneg w) {L : LayerData} {rest : List LayerData} {a : Nat}
+    (hL : LayerCore w L) (hrest : Layers w (lastOf a L.main) rest)
+    {x y : Nat} (hx : x ∈ layerOps (L :: rest)) (hy : y ∈ layerOps (L :: rest)) (hxy : x ≠ y) :
+    Before w x y ∨ Before w y x ∨ DiffChains (L :: rest) x y :=
+  block_ordered hd hL hrest x hx y hy hxy
+
+/-- **No double booking of a block of layers**: if the operations of sub-circuit `c` are those of a block of layers
+    and operations on different paths of one layer share no channel, no two channel-sharing operations of `c`
+    overlap. -/
+theorem layered_block_no_double_booking {w : World} (hd : LeafDurNonneg w) {L : LayerData} {rest : List LayerData}
+    {a c : Nat} (hL : LayerCore w L) (hrest : Layers w (lastOf a L.main) rest)
+    (hcont : ∀ x ∈ contents w (w.ops.size + 2) c, x ∈ layerOps (L :: rest))
+    (hsep : Separated w (L :: rest)) : NoDoubleBooking w c :=
+  block_no_double_booking hd hL hrest hcont hsep
+
+/-- **Uniform layers are dominated** (all paths carry the same sequence of duration strategies: the Ry90 / CPhase and
+    parking / virtual-phase / Rym90 layers, reset – measurement per qubit, …): any number of paths, all durations. -/
+theorem uniform_layer_dominated {w : World} (hd : LeafDurNonneg w) {chains : List (List Nat)} {main : List Nat}
+    (hleaf : ∀ c ∈ chains, ∀ x ∈ c, (w.op x).isComp = false) (hmain : ∀ x ∈ main, (w.op x).isComp = false)
+    (h : ∀ c ∈ chains, durs w c = durs w main) : Dominated w chains main :=
+  dominated_uniform hd hleaf hmain h
+
+/-- **The refocusing layer is dominated** by a refocusing path (measurement ‖ wait – pulse – wait): any number of
+    data and ancilla qubits, all non-negative durations with readout − microwave even when non-negative. -/
+theorem refocusing_layer_dominated {w : World} (hd : LeafDurNonneg w) {chains : List (List Nat)} {main : List Nat}
+    (hleaf : ∀ c ∈ chains, ∀ x ∈ c, (w.op x).isComp = false) (hmainleaf : ∀ x ∈ main, (w.op x).isComp = false)
+    (hmain : durs w main = [.decoupling, .glob .mw, .decoupling])
+    (h : ∀ c ∈ chains, durs w c = [.glob .ro] ∨ durs w c = durs w main)
+    (heven : w.gMw ≤ w.gRo → (w.gRo - w.gMw) % 2 = 0) : Dominated w chains main :=
+  dominated_refocus hd hleaf hmainleaf hmain h heven
+
+/-- **The refocusing layer of a QEC round, any number of qubits**: below an operation `b` (the barrier) hang, one
+    per qubit, ancilla measurements and refocusing paths wait – pulse – wait; whatever is FOLLOWED_BY the last wait
+    of one refocusing path (`close`: the closing barrier, which `add` hangs below the LAST path) starts after every
+    measurement and every pulse of the layer has ended — although it is linked to one path only. -/
+theorem refocusing_layer_closed {w : World} (hd : LeafDurNonneg w) {b : Nat} {L : LayerData}
+    (hint : ∀ c ∈ L.chains, ∀ x xs, c = x :: xs → FbPath w x xs)
+    (hstep : ∀ c ∈ L.chains, ∀ x xs, c = x :: xs → DirectFb w b x)
+    (hmem : L.main ∈ L.chains)
+    (hleaf : ∀ c ∈ L.chains, ∀ x ∈ c, (w.op x).isComp = false)
+    (hmain : durs w L.main = [.decoupling, .glob .mw, .decoupling])
+    (hkinds : ∀ c ∈ L.chains, durs w c = [.glob .ro] ∨ durs w c = durs w L.main)
+    (heven : w.gMw ≤ w.gRo → (w.gRo - w.gMw) % 2 = 0)
+    {close : Nat} (hclose : FbStep w (lastOf b L.main) close)
+    {c : List Nat} (hc : c ∈ L.chains) {y : Nat} (hy : y ∈ c) {ey sc : Int} (hey : End w y ey)
+    (hsc : Start w close sc) : ey ≤ sc := by
+  have hne : L.main ≠ [] := by
+    intro h0
+    rw [h0] at hmain
+    cases hmain
+  have hL : LayerOk w b L :=
+    ⟨hint, fun c hc x xs hcx => (hstep c hc x xs hcx).fbStep, Or.inl hstep, Or.inr ⟨hne, hmem⟩,
+     dominated_refocus hd hleaf (hleaf _ hmem) hmain hkinds heven⟩
+  obtain ⟨em, hem, hle⟩ := fbStep_end_le_start hclose hsc
+  have := layer_before_next hL hc hy hey hem
+  omega
+
+/-- **One step of the builder** (`World.add`, the function the driver executes for
+    `CircuitCompositeOperation.add`): an operation without relation is hung, by a fresh single FOLLOWED_BY link
+    (`DirectFb`), below the LAST node of the listing that shares a channel with it (`leafAtAny`), which is a deepest
+    one among the matching nodes. -/
+theorem builder_hangs_below_last_match {w : World} {c o lf : Nat} (hc : c < w.ops.size) (ho : o < w.ops.size)
+    (hoc : o ≠ c) (hrel : w.hasRel o = false) (hleaf : w.leafAtAny (w.op c).graph (w.chansOf o) = some lf) :
+    DirectFb (w.add c o) lf o ∧ ((w.add c o).op c).graph = attach (w.op c).graph (some lf) o ∧
+    ∃ e ∈ (w.op c).graph, e.node = lf ∧
+      ∀ e' ∈ (w.op c).graph, matchesNode w (w.chansOf o) e'.node = true → e'.key.length ≤ e.key.length :=
+  ⟨(add_links_below_leaf hc ho hoc hrel hleaf).1, (add_links_below_leaf hc ho hoc hrel hleaf).2,
+   leafAtAny_deepest hleaf⟩
+
+/-- **Where the builder puts an all-qubit barrier** (an operation that shares a channel with every node): below the
+    last node of the listing, a deepest node of the relation tree — the layer theorem asks that the path of that
+    node be one of the last to end ("the deepest path is a longest one"). -/
+theorem builder_hangs_barrier_below_last_listed {w : World} {c o : Nat} (hc : c < w.ops.size) (ho : o < w.ops.size)
+    (hoc : o ≠ c) (hrel : w.hasRel o = false) {lf : Nat} (hlast : (listing (w.op c).graph).getLast? = some lf)
+    (hall : ∀ n ∈ listing (w.op c).graph, matchesNode w (w.chansOf o) n = true) :
+    DirectFb (w.add c o) lf o ∧ ((w.add c o).op c).graph = attach (w.op c).graph (some lf) o ∧
+    ∃ e ∈ (w.op c).graph, e.node = lf ∧ ∀ e' ∈ (w.op c).graph, e'.key.length ≤ e.key.length :=
+  add_all_matching_below_last hc ho hoc hrel hlast hall
+
+/-- **Builder, a new path** (program step `addNew` = fresh link, fresh operation, `World.add`, on a flat block
+    under construction, invariant `LInv`): an operation that shares a channel with the opener (if any) but with no
+    operation of the open layer starts a new path below the opener — any number of paths. -/
+theorem builder_starts_new_path {w : World} {c : Nat} {desc : Nat → Op} {opener : Option Nat} {kb : List Nat}
+    {groups : List (List Nat)} (h : LInv w c desc opener kb groups) {d : Op} (hd : d.isComp = false)
+    (hop : ∀ b, opener = some b → sharesChannel d (desc b) = true)
+    (hno : ∀ x ∈ groups.flatten, sharesChannel d (desc x) = false) :
+    LInv (addNew c w d) c (descUpd desc w.ops.size d) opener kb (groups ++ [[w.ops.size]]) :=
+  step_new h hd hop hno
+
+/-- **Builder, extending a path**: an operation that shares a channel with the LAST operation of one path and with no
+    operation of another path is hung below that last operation — any path length. -/
+theorem builder_extends_path {w : World} {c : Nat} {desc : Nat → Op} {opener : Option Nat} {kb : List Nat}
+    {A B : List (List Nat)} {pre : List Nat} {x : Nat}
+    (h : LInv w c desc opener kb (A ++ (pre ++ [x]) :: B)) {d : Op} (hd : d.isComp = false)
+    (hx : sharesChannel d (desc x) = true)
+    (hno : ∀ y ∈ (A ++ B).flatten, sharesChannel d (desc y) = false) :
+    LInv (addNew c w d) c (descUpd desc w.ops.size d) opener kb (A ++ (pre ++ [x] ++ [w.ops.size]) :: B) :=
+  step_ext h hd hx hno
+
+/-- **Builder, closing a layer**: an operation that shares a channel with the last operation `x` of a path that is at
+    least as long as every earlier path and longer than every later one is hung below `x` (a single FOLLOWED_BY link)
+    and opens the next layer: the closing barrier hangs below the LAST of the LONGEST paths — which the layer theorem
+    requires to be one of the last to end. -/
+theorem builder_closes_layer {w : World} {c : Nat} {desc : Nat → Op} {opener : Option Nat} {kb : List Nat}
+    {A B : List (List Nat)} {pre : List Nat} {x : Nat}
+    (h : LInv w c desc opener kb (A ++ (pre ++ [x]) :: B)) {d : Op} (hd : d.isComp = false)
+    (hx : sharesChannel d (desc x) = true)
+    (hA : ∀ G ∈ A, G.length ≤ pre.length + 1) (hB : ∀ G ∈ B, G.length < pre.length + 1) :
+    LInv (addNew c w d) c (descUpd desc w.ops.size d) (some w.ops.size)
+      (layerKey kb A.length (pre.length + 1)) [] ∧ DirectFb (addNew c w d) x w.ops.size := by
+  obtain ⟨h1, h2, _⟩ := step_close h hd hx hA hB
+  exact ⟨h1, h1.directFb h2 rfl⟩
+
+/-- **Nested blocks of layers have lead 0** (no contained operation starts before the first operations). -/
+theorem nested_blocks_lead_zero {w : World} (hd : LeafDurNonneg w) {cert : Nat → List (List LayerData)} {f X : Nat}
+    (h : Nested w cert f X) {l d : Int} (hls : LeadSpanV w X (l, d)) : l = 0 :=
+  nested_lead_zero hd f X h l d hls
+
+/-- **The interval of a nested block covers every leaf operation below it.** -/
+theorem nested_block_covers {w : World} (hd : LeafDurNonneg w) {cert : Nat → List (List LayerData)} {f X : Nat}
+    (h : Nested w cert f X) {ex : Int} (hex : End w X ex) {a : Nat} (ha : a ∈ leavesBelow w f X)
+    {ea : Int} (hea : End w a ea) : ea ≤ ex :=
+  nested_covers hd f X h ex hex a ha ea hea
+
+/-- **What a nested block is FOLLOWED_BY-linked to precedes every leaf operation below it.** -/
+theorem nested_block_follows {w : World} (hd : LeafDurNonneg w) {cert : Nat → List (List LayerData)} {f X : Nat}
+    (h : Nested w cert f X) {P : Nat} (hP : FbStep w P X) {a : Nat} (ha : a ∈ leavesBelow w f X)
+    {ep sa : Int} (hep : End w P ep) (hsa : Start w a sa) : ep ≤ sa :=
+  (nested_reach f X h P hP a ha).before hd ep sa hep hsa
+
+/-- **Nested blocks of layers never double-book a channel** — every number of qubits, paths, layers, nesting levels,
+    all non-negative durations. -/
+theorem nested_layers_no_double_booking {w : World} (hd : LeafDurNonneg w) {cert : Nat → List (List LayerData)} {c : Nat}
+    (hc : (w.op c).isComp = true) (h : Nested w cert (w.ops.size + 2) c) : NoDoubleBooking w c :=
+  nested_no_double_booking hd hc h
+
+/-- **Soundness of the layered check**: `layeredOk w R cert c` ⇒ no double booking for ALL non-negative values of
+    the variables. -/
+theorem layered_check_sound {w : World} {R : Regime} {cert : Nat → List (List LayerData)} {c : Nat}
+    (h : layeredOk w R cert c = true) {v : Vars} (hv : v.Nonneg) (hR : R.Valid v) :
+    NoDoubleBooking (R.world w v) c :=
+  layeredOk_sound h hv hR
+
+/-- both regimes ⇒ all non-negative duration settings. -/
+theorem layered_check_all_durations {w : World} {c : Nat} {certA certB : Nat → List (List LayerData)}
+    (hA : layeredOk w regimeA certA c = true) (hB : layeredOk w regimeB certB c = true)
+    {ro mw fl rs : Int} (hro : 0 ≤ ro) (hmw : 0 ≤ mw) (hfl : 0 ≤ fl) (hrs : 0 ≤ rs)
+    (heven : mw ≤ ro → (ro - mw) % 2 = 0) : NoDoubleBooking (withDurations w ro mw fl rs) c :=
+  layered_all_durations hA hB hro hmw hfl hrs heven
+
+/- Full statement, NOT proved: the heap the model builds for EVERY constructor input is an instance
+   (`layeredOk … = true`, or `Nested` directly).  Proved: the lists below (bounded). -/
+
+/-- ALL heaps of Generated/C10Worlds are instances of the layer theorem (layers read off the heap, no schedule
+    table). -/
+theorem library_layers_generated_partial : Generated.cases.all caseLayered = true := by decide +kernel
+
+/-- hence: no double booking for all non-negative durations, by the layer theorem alone. -/
+theorem library_no_double_booking_layered_generated_partial (x : Case) (hx : x ∈ Generated.cases)
+    {ro mw fl rs : Int} (hro : 0 ≤ ro) (hmw : 0 ≤ mw) (hfl : 0 ≤ fl) (hrs : 0 ≤ rs)
+    (heven : mw ≤ ro → (ro - mw) % 2 = 0) : NoDoubleBooking (withDurations x.w ro mw fl rs) x.c :=
+  caseLayered_sound x (List.all_eq_true.mp library_layers_generated_partial x hx) hro hmw hfl hrs heven
+
+/-- the larger generated heaps (chains of 3 … 17 qubits, 0 … 5 cycles, as constructed and unrolled): checked by the
+    kernel in their own modules. -/
+theorem library_layers_checked_partial_0 : Worlds0.cases.all TCase.ok = true := Worlds0.checked
+theorem library_layers_checked_partial_1 : Worlds1.cases.all TCase.ok = true := Worlds1.checked
+theorem library_layers_checked_partial_2 : Worlds2.cases.all TCase.ok = true := Worlds2.checked
+theorem library_layers_checked_partial_3 : Worlds3.cases.all TCase.ok = true := Worlds3.checked
+
+/-- the heaps of the layered list. -/
+def layeredCases : List TCase := Worlds0.cases ++ Worlds1.cases ++ Worlds2.cases ++ Worlds3.cases
+
+/-- every heap of the layered list: no double booking for all non-negative durations. -/
+theorem library_no_double_booking_layered_partial (x : TCase) (hx : x ∈ layeredCases)
+    {ro mw fl rs : Int} (hro : 0 ≤ ro) (hmw : 0 ≤ mw) (hfl : 0 ≤ fl) (hrs : 0 ≤ rs)
+    (heven : mw ≤ ro → (ro - mw) % 2 = 0) : NoDoubleBooking (withDurations x.w ro mw fl rs) x.c := by
+  have hok : x.ok = true := by
+    unfold layeredCases at hx
+    simp only [List.mem_append] at hx
+    rcases hx with ((h | h) | h) | h
+    · exact List.all_eq_true.mp library_layers_checked_partial_0 x h
+    · exact List.all_eq_true.mp library_layers_checked_partial_1 x h
+    · exact List.all_eq_true.mp library_layers_checked_partial_2 x h
+    · exact List.all_eq_true.mp library_layers_checked_partial_3 x h
+  exact x.sound hok hro hmw hfl hrs heven
+
+/-! ### cycle counts: the evaluator never reads a repetition count
+
+  As constructed, the heap of `construct_repetition_code_circuit(qec_cycles = k)` is for every `k ≥ 4` the heap for
+  `k = 4` with the repetition strategy of the middle block (and of its two copies) set to `k − 3` — observed with the
+  recorder for k = 5, 6, 9, 20 at 3, 5, 7 qubits, kernel-checked below for k = 5 at 3 qubits, not proved for all k (it
+  is a statement about the constructor).  `RepEquiv w w'`: equal up to repetition strategies. -/
+
+/-- **No double booking does not depend on repetition counts** (the evaluator never reads them,
+    `Qco.C10Param.ev_repEquiv`). -/
+theorem no_double_booking_ignores_repetition_counts {w w' : World} (h : RepEquiv w w') (hreg : w'.dreg = w.dreg)
+    {c : Nat} {ro mw fl rs : Int} (hw : NoDoubleBooking (withDurations w ro mw fl rs) c) :
+    NoDoubleBooking (withDurations w' ro mw fl rs) c :=
+  noDoubleBooking_repEquiv (h.withDurations ro mw fl rs hreg) hw
+
+/-- every heap of the layered list, with ARBITRARY repetition counts: no double booking for all non-negative
+    durations (as constructed; unrolling such a heap is another heap). -/
+theorem library_no_double_booking_any_repetition_counts_partial (x : TCase) (hx : x ∈ layeredCases) (g : Nat → Rep)
+    {ro mw fl rs : Int} (hro : 0 ≤ ro) (hmw : 0 ≤ mw) (hfl : 0 ≤ fl) (hrs : 0 ≤ rs)
+    (heven : mw ≤ ro → (ro - mw) % 2 = 0) : NoDoubleBooking (withDurations (withReps x.w g) ro mw fl rs) x.c :=
+  no_double_booking_ignores_repetition_counts (repEquiv_withReps x.w g) (withReps_dreg x.w g)
+    (library_no_double_booking_layered_partial x hx hro hmw hfl hrs heven)
+
+/-! ### the hypotheses of the parametric theorems are satisfiable (non-vacuity)
+
+  `Example.ddDemo` (Lemmas/C10ParamExample.lean): the refocusing layer of a QEC round — barrier; ancilla measurement
+  ‖ wait – Rx180 – wait on the data qubit; closing barrier below the last wait — under the default durations
+  (`ddWorld`).  The two paths of the middle layer have different operations and equal length (16 = 4 + 8 + 4). -/
+
+open Qco.C10Param.Example in
+example : FbPath ddWorld 1 [3, 4, 5] ∧ Start ddWorld 5 16 ∧ End ddWorld 1 4 ∧ PathDur ddWorld [3, 4] 12 := by
+  refine ⟨?_, ⟨20, by decide +kernel⟩, ⟨20, by decide +kernel⟩, ?_⟩
+  · exact ⟨⟨rfl, Or.inl ⟨rfl, rfl⟩⟩, ⟨rfl, Or.inl ⟨rfl, rfl⟩⟩, ⟨rfl, Or.inl ⟨rfl, rfl⟩⟩, trivial⟩
+  · exact ⟨4, 8, ⟨20, by decide +kernel⟩, ⟨8, 0, ⟨20, by decide +kernel⟩, rfl, rfl⟩, rfl⟩
+
+-- `followed_by_path_schedule` on it: start of the last wait = end of the barrier + (wait + Rx180)
+open Qco.C10Param.Example in
+example : ∃ ea D, End ddWorld 1 ea ∧ PathDur ddWorld [3, 4] D ∧ (16 : Int) = ea + D :=
+  followed_by_path_schedule [3, 4] 1 5
+    ⟨⟨rfl, Or.inl ⟨rfl, rfl⟩⟩, ⟨rfl, Or.inl ⟨rfl, rfl⟩⟩, ⟨rfl, Or.inl ⟨rfl, rfl⟩⟩, trivial⟩ ⟨20, by decide +kernel⟩
+
+-- the hypothesis bundles: `LeafDurNonneg`, `LayerCore`, `Layers`, `SeqOk` (⇒ `HeadLayerOk`), `BlockOk`,
+-- `Nested`; the layers are what `autoCert` reads off the heap
+open Qco.C10Param.Example in
+example : LeafDurNonneg ddWorld ∧ LayerCore ddWorld ddL0 ∧ Layers ddWorld (lastOf 0 ddL0.main) ddRest ∧
+    SeqOk ddWorld 0 ddL0 ddRest 8 ∧ BlockOk ddWorld 0 [ddL0 :: ddRest] 8 ∧
+    Nested ddWorld (autoCert ddDemo) (ddWorld.ops.size + 2) 0 ∧ autoCert ddDemo 0 = [ddL0 :: ddRest] :=
+  ⟨ddDemo_durs, ddDemo_core, ddDemo_layers, ddDemo_seq, ddDemo_block, ddDemo_nested, ddDemo_cert⟩
+
+-- the layer lemma says something there: the measurement (16 long) has ended when the refocusing path (4 + 8 + 4) ends
+open Qco.C10Param.Example in
+example : End ddWorld 2 20 ∧ End ddWorld 5 20 ∧ Start ddWorld 6 20 :=
+  ⟨ddDemo_times.1, ddDemo_times.2.1, ddDemo_times.2.2.1⟩
+
+-- `layer_last_ending_path` on the middle layer (two paths of different shape): the measurement has ended when the
+-- last wait ends
+open Qco.C10Param.Example in
+example : LayerCore ddWorld ⟨[[2], [3, 4, 5]], [3, 4, 5]⟩ ∧ ∀ ey em, End ddWorld 2 ey → End ddWorld 5 em → ey ≤ em := by
+  have hL : LayerOk ddWorld 1 ⟨[[2], [3, 4, 5]], [3, 4, 5]⟩ := ddDemo_layers.1
+  have hcore := hL.core (by simp) (by simp)
+  exact ⟨hcore, fun ey em hey hem =>
+    layer_last_ending_path hcore (a := 0) (c := [2]) (by simp) (y := 2) (by simp) hey hem⟩
+
+-- `layered_block_no_double_booking` on it: paths of one layer share no channel, the contents are the layer operations
+open Qco.C10Param.Example in
+example : Separated ddWorld (ddL0 :: ddRest) ∧ NoDoubleBooking ddWorld 0 := by
+  have hsep : Separated ddWorld (ddL0 :: ddRest) := by unfold Separated; decide +kernel
+  refine ⟨hsep, layered_block_no_double_booking ddDemo_durs (a := 0) ddDemo_core ddDemo_layers ?_ hsep⟩
+  have h1 : contents ddWorld (ddWorld.ops.size + 2) 0 = [1, 2, 3, 4, 5, 6] := by decide +kernel
+  have h2 : layerOps (ddL0 :: ddRest) = [1, 2, 3, 4, 5, 6] := by decide +kernel
+  intro x hx
+  rw [h1] at hx; rw [h2]; exact hx
+
+-- `refocusing_layer_dominated` on it
+open Qco.C10Param.Example in
+example : Dominated ddWorld [[2], [3, 4, 5]] [3, 4, 5] :=
+  refocusing_layer_dominated ddDemo_durs (by decide +kernel) (by decide +kernel) rfl
+    (by intro c hc
+        simp only [List.mem_cons, List.not_mem_nil, or_false] at hc
+        rcases hc with rfl | rfl
+        · exact Or.inl rfl
+        · exact Or.inr rfl)
+    (by decide +kernel)
+
+-- `uniform_layer_dominated`: the first layer of the initialisation block of Generated.w2 (five qubits): reset –
+-- heralding measurement on every qubit
+example : (∀ c ∈ [[25, 30], [26, 31], [27, 32], [28, 33], [29, 34]], durs Generated.w2 c = durs Generated.w2 [29, 34]) ∧
+    durs Generated.w2 [29, 34] = [.glob .rs, .glob .ro] ∧
+    (∀ c ∈ [[25, 30], [26, 31], [27, 32], [28, 33], [29, 34]], ∀ x ∈ c, (Generated.w2.op x).isComp = false) := by
+  decide +kernel
+
+-- `refocusing_layer_closed` on it: opener = barrier 1, paths [2] (measurement) and [3, 4, 5], closing barrier 6
+open Qco.C10Param.Example in
+example : ∀ ey sc, End ddWorld 2 ey → Start ddWorld 6 sc → ey ≤ sc := by
+  intro ey sc hey hsc
+  have hL : LayerOk ddWorld 1 ⟨[[2], [3, 4, 5]], [3, 4, 5]⟩ := ddDemo_layers.1
+  refine refocusing_layer_closed ddDemo_durs (b := 1) (L := ⟨[[2], [3, 4, 5]], [3, 4, 5]⟩) hL.internal ?_ ?_ ?_ ?_ ?_ ?_
+    (close := 6) ?_ (c := [2]) ?_ (y := 2) ?_ hey hsc
+  · intro c hc x xs hcx
+    simp only [List.mem_cons, List.not_mem_nil, or_false] at hc
+    rcases hc with rfl | rfl
+    · cases hcx; exact ⟨rfl, Or.inl ⟨rfl, rfl⟩⟩
+    · cases hcx; exact ⟨rfl, Or.inl ⟨rfl, rfl⟩⟩
+  · simp
+  · decide +kernel
+  · rfl
+  · intro c hc
+    simp only [List.mem_cons, List.not_mem_nil, or_false] at hc
+    rcases hc with rfl | rfl
+    · exact Or.inl rfl
+    · exact Or.inr rfl
+  · decide +kernel
+  · exact ⟨rfl, Or.inl ⟨rfl, rfl⟩⟩
+  · simp
+  · simp
+
+-- the builder step: `ddOpen` is `ddDemo` before the closing barrier 6 is added; the model's own `add` hangs it below
+-- the last wait 5 (last node of the listing [1, 2, 3, 4, 5]) and produces the relation tree of `ddDemo`
+open Qco.C10Param.Example in
+example : listing (ddOpen.op 0).graph = [1, 2, 3, 4, 5] ∧ ddOpen.hasRel 6 = false ∧
+    DirectFb (ddOpen.add 0 6) 5 6 ∧ ((ddOpen.add 0 6).op 0).graph = (ddDemo.op 0).graph :=
+  ⟨ddOpen_listing, by decide +kernel, ddOpen_add.1, ddOpen_add.2⟩
+
+-- the builder theorems on the program of `ddDemo` (barrier; measurement; wait, Rx180, wait; barrier), run from a fresh
+-- circuit through the model's own `World.add`: the barrier opens, the measurement and the first wait start paths,
+-- Rx180 and the second wait extend the second path, the closing barrier is hung below the last wait
+example : ∃ (W : World) (desc : Nat → Op) (kb : List Nat) (o : Nat), LInv W 0 desc (some o) kb [] := by
+  let w0 : World := (({} : World).newCircuit (.fixed 1)).1
+  let dB : Op := { cls := .barrier, qs := [0, 1], dur := .fixed 4 }
+  let dM : Op := { cls := .measure, qs := [1], dur := .glob .ro }
+  let dW : Op := { cls := .wait, qs := [0], dur := .decoupling }
+  let dX : Op := { cls := .rx180, qs := [0], dur := .glob .mw }
+  have h0 : LInv w0 0 (fun _ => default) none [] [] := linv_fresh w0 0 _ (by decide) rfl
+  have h1 := builder_starts_new_path h0 (d := dB) rfl (by intro b hb; cases hb) (by intro x hx; cases hx)
+  have s1 : (addNew 0 w0 dB).ops.size = 2 := by rw [(addNew_spec w0 0 dB h0.flat rfl).size]; rfl
+  have h2 := promote (A := []) (pre := []) (B := []) h1 (by intro G hG; cases hG) (by intro G hG; cases hG)
+  have h3 := builder_starts_new_path h2 (d := dM) rfl (by intro b hb; cases hb; decide) (by intro x hx; cases hx)
+  have s2 : (addNew 0 (addNew 0 w0 dB) dM).ops.size = 3 := by rw [(addNew_spec _ 0 dM h2.flat rfl).size, s1]
+  rw [s1] at h3
+  have h4 := builder_starts_new_path h3 (d := dW) rfl (by intro b hb; cases hb; decide) (by decide)
+  rw [s2] at h4
+  have s3 : (addNew 0 (addNew 0 (addNew 0 w0 dB) dM) dW).ops.size = 4 := by
+    rw [(addNew_spec _ 0 dW h3.flat rfl).size, s2]
+  have h5 := builder_extends_path (A := [[2]]) (pre := []) (x := 3) (B := []) h4 (d := dX) rfl (by decide) (by decide)
+  rw [s3] at h5
+  have s4 : (addNew 0 (addNew 0 (addNew 0 (addNew 0 w0 dB) dM) dW) dX).ops.size = 5 := by
+    rw [(addNew_spec _ 0 dX h4.flat rfl).size, s3]
+  have h6 := builder_extends_path (A := [[2]]) (pre := [3]) (x := 4) (B := []) h5 (d := dW) rfl (by decide) (by decide)
+  rw [s4] at h6
+  have h7 := (builder_closes_layer (A := [[2]]) (pre := [3, 4]) (x := 5) (B := []) h6 (d := dB) rfl (by decide)
+    (by decide) (by intro G hG; cases hG)).1
+  exact ⟨_, _, _, _, h7⟩
+
+-- channel-sharing pairs that are NOT on one FOLLOWED_BY path exist (measurement of qubit 1 vs the closing barrier)
+open Qco.C10Param.Example in
+example : sharesChannel (ddWorld.op 2) (ddWorld.op 6) = true ∧ (ddWorld.op 6).cls = .barrier ∧
+    ¬ (ddWorld.lnk (ddWorld.op 6).link).refs.head? = some 2 := by decide +kernel
+
+-- the contents of the block are the six operations; the flat-block theorem applies
+open Qco.C10Param.Example in
+example : contents ddWorld (ddWorld.ops.size + 2) 0 = [1, 2, 3, 4, 5, 6] ∧
+    layerOps (ddL0 :: ddRest) = [1, 2, 3, 4, 5, 6] := by decide +kernel
+
+open Qco.C10Param.Example in
+example : layeredOk ddDemo regimeA (autoCert ddDemo) 0 = true ∧ layeredOk ddDemo regimeB (autoCert ddDemo) 0 = true :=
+  ddDemo_ok
+
+-- a NESTED instance: the complete circuit `construct_repetition_code_circuit(1)` on three qubits (Generated.w1):
+-- four nesting levels, 106 objects
+example : Nested (regimeA.world Generated.w1 Example.vDemo) (autoCert Generated.w1)
+    ((regimeA.world Generated.w1 Example.vDemo).ops.size + 2) 0 ∧ (Generated.w1.op 0).isComp = true := by
+  have hv := Example.vDemo_nonneg
+  have hR := regimeA_valid hv
+  have hd : LeafDurNonneg (regimeA.world Generated.w1 Example.vDemo) :=
+    dursNonnegB_sound (by decide +kernel) hv hR
+  exact ⟨nestedB_sound hv hR hd _ 0 (by decide +kernel), by decide +kernel⟩
+
+-- how a library ROUND is an instance: sub-circuit 81 of that heap is the copy of `get_circuit_qec_round(...)` that
+-- sits in the circuit (Ry90 – barrier – CPhase – barrier – … – Rym90 – barrier – measurement, 13 operations)
+example : layeredOk Generated.w1 regimeA (autoCert Generated.w1) 81 = true ∧
+    (contents Generated.w1 (Generated.w1.ops.size + 2) 81).length = 13 := by decide +kernel
+
+-- the lists are not empty, the heaps are large, the unrolled variants are among them
+example : layeredCases.length = 55 ∧ (layeredCases.map (·.n)).sum = 16984 ∧
+    (layeredCases.map (·.n)).foldl max 0 = 822 := by decide +kernel
+example : (layeredCases.map (·.name)).contains "full chain-7-1 cycles=2 data=1010 UNROLLED" = true ∧
+    (layeredCases.map (·.name)).contains "full chain-17-1 cycles=2 data=101010101" = true ∧
+    (layeredCases.map (·.name)).contains "simplified chain-9-1 cycles=4 data=10101 UNROLLED" = true := by
+  decide +kernel
+
+-- a block with SEVERAL sequences of layers: `cycles = 0` (Generated.w2, five qubits): below the initialisation block
+-- 24 the ancilla measurement block 44 (with the detectors below it) and the data measurement block 51 (with the
+-- observables below it)
+example : autoCert Generated.w2 0 =
+    [[⟨[[24]], [24]⟩, ⟨[[44]], [44]⟩, ⟨[[55], [56]], [56]⟩],
+     [⟨[[24]], [24]⟩, ⟨[[51]], [51]⟩, ⟨[[57], [58], [59]], [59]⟩]] := by decide +kernel
+
+/-- the heap of the layered list with the given name (the empty heap if there is none). -/
+def layeredCase (name : String) : TCase :=
+  (layeredCases.find? (fun x => x.name == name)).getD ⟨"", .nil, 0, .nil, 0, [], [], 0⟩
+
+-- repetition counts: the recorded heap for 5 cycles is the one for 4 cycles up to repetition strategies
+example : RepEquiv (layeredCase "full chain-3-1 cycles=4 data=10").w (layeredCase "full chain-3-1 cycles=5 data=10").w ∧
+    (layeredCase "full chain-3-1 cycles=4 data=10").n = 295 ∧ (layeredCase "full chain-3-1 cycles=5 data=10").n = 295 :=
+  ⟨(repEquivB_sound (by decide +kernel)).1, by decide +kernel, by decide +kernel⟩
 
 end Qco.C10
